@@ -552,8 +552,21 @@ impl<T: PartialOrd + Copy> Interval<T> {
     {
         match self {
             Interval::TwoSided(low, high) => Interval::TwoSided(f_low(*low), f_high(*high)),
-            Interval::LowerOneSided(low) => Interval::UpperOneSided(f_low(*low)),
-            Interval::UpperOneSided(high) => Interval::LowerOneSided(f_high(*high)),
+            Interval::UpperOneSided(low) => Interval::UpperOneSided(f_low(*low)),
+            Interval::LowerOneSided(high) => Interval::LowerOneSided(f_high(*high)),
+        }
+    }
+
+    /// Apply an order-reversing function to the bounds: the image of the lower bound
+    /// becomes the upper bound (and vice versa), and one-sided intervals change direction.
+    fn applied_reversed<F>(&self, f: F) -> Self
+    where
+        F: Fn(T) -> T,
+    {
+        match self {
+            Interval::TwoSided(low, high) => Interval::TwoSided(f(*high), f(*low)),
+            Interval::UpperOneSided(low) => Interval::LowerOneSided(f(*low)),
+            Interval::LowerOneSided(high) => Interval::UpperOneSided(f(*high)),
         }
     }
 
@@ -643,19 +656,32 @@ where
     }
 }
 
-impl<F: Mul<F, Output = F> + PartialOrd + Copy> Mul<F> for Interval<F> {
+impl<F: Mul<F, Output = F> + PartialOrd + Copy + num_traits::Zero> Mul<F> for Interval<F> {
     type Output = Self;
 
     fn mul(self, rhs: F) -> Self::Output {
-        self.applied_both(|x| x * rhs)
+        if rhs < F::zero() {
+            // multiplying by a negative value reverses the order of the bounds
+            self.applied_reversed(|x| x * rhs)
+        } else if rhs.is_zero() {
+            // every value is mapped to zero
+            Interval::TwoSided(F::zero(), F::zero())
+        } else {
+            self.applied_both(|x| x * rhs)
+        }
     }
 }
 
-impl<F: Div<F, Output = F> + PartialOrd + Copy> Div<F> for Interval<F> {
+impl<F: Div<F, Output = F> + PartialOrd + Copy + num_traits::Zero> Div<F> for Interval<F> {
     type Output = Self;
 
     fn div(self, rhs: F) -> Self::Output {
-        self.applied_both(|x| x / rhs)
+        if rhs < F::zero() {
+            // dividing by a negative value reverses the order of the bounds
+            self.applied_reversed(|x| x / rhs)
+        } else {
+            self.applied_both(|x| x / rhs)
+        }
     }
 }
 
@@ -679,7 +705,7 @@ impl<F: Neg<Output = F> + PartialOrd + Copy> Neg for Interval<F> {
     type Output = Self;
 
     fn neg(self) -> Self::Output {
-        self.applied_both(|x| -x)
+        self.applied_reversed(|x| -x)
     }
 }
 
